@@ -70,6 +70,11 @@ type observation struct {
 	Tau           int64   `json:"close_time"`
 	Notifications int     `json:"close_notifications"`
 	Infra         string  `json:"infra,omitempty"`
+	// Direct: failures that involve no timing (reported without re-run)
+	Direct []problem `json:"-"`
+	// StrictCause: the harness owns both ends and never closes the peer, so a close with any error other than the
+	// two timeout errors is the library's doing
+	StrictCause bool `json:"strict_cause,omitempty"`
 }
 
 type problem struct {
